@@ -407,6 +407,6 @@ def tasks(ctx):
     t = []
     for sh in range(NSHARDS):
         t.append((task_grid, dict(shard=sh)))
-        t.append((task_random, dict(shard=sh, n=ctx.pick(4, 130))))
+        t.append((task_random, dict(shard=sh, n=ctx.pick(8, 130))))
         t.append((task_realkill, dict(shard=sh)))
     return t
